@@ -489,8 +489,11 @@ class ConsumerGroup(Entity):
             if consumer_name not in self._committed_offsets:
                 self._committed_offsets[consumer_name] = {}
 
+            committed = self._committed_offsets[consumer_name]
             for pid, offset in offsets.items():
-                self._committed_offsets[consumer_name][pid] = offset
+                # Committed offsets are monotone: a late or duplicate commit
+                # of an older position must not rewind the consumer.
+                committed[pid] = max(committed.get(pid, 0), offset)
 
             self._commits += 1
             return None
